@@ -99,8 +99,14 @@ Packet(s, e) ==
 
 Apply(s, e) ==
     CASE e.ev = "preamble" ->
-            IF e.hasheq /\ e.zero /\ e.total = 34 + e.declared /\ PreambleOk(s.sch, e.declared)
-            THEN Ok(s) ELSE No(s, "preamble does not carry the padding length of line 0")
+            \* well-formedness of packet 0 (C04): hash, length field, exactly as many bytes as declared - what
+            \* follows the declared padding would be read as frames by the server
+            LET formed == e.hasheq /\ e.total = 34 + e.declared
+                shaped == e.zero /\ PreambleOk(s.sch, e.declared) IN
+            IF ~formed /\ ~shaped THEN No(s, "the preamble is malformed (what follows the declared padding is parsed as frames) and does not carry the padding length of line 0")
+            ELSE IF ~formed THEN No(s, "the preamble is not hash + length + exactly the declared number of padding bytes (what follows is parsed as frames)")
+            ELSE IF ~shaped THEN No(s, "preamble does not carry the padding length of line 0")
+            ELSE Ok(s)
       [] e.ev = "call" ->
             IF s.incall THEN No(s, "nested call")
             ELSE LET s1 == [s EXCEPT !.incall = TRUE, !.pending = @ \o e.chunks] IN
